@@ -1388,9 +1388,10 @@ package ucfg
 // C04: a value that takes its setting through a custom Unpack method is validated before it is handed back: the
 // validators of its field accept it and so does its own Validate() method
 //@ func reifyMergeValue :: opts, oldValue, val -> r, err
-//@ props C11 C07 C04
+//@ props C11 C07 C04 C06
 //@ norte
 //@ uses chase
+//@ at-call reifyStruct requires rvType(orig) != atentry(tRegexp)
 //@ ensures [unpacker_validated @C04] err == nil && !((rvKind(chasedP(chasedI(oldValue))) == 22 || rvKind(chasedP(chasedI(oldValue))) == 20) && rvNil(chasedP(chasedI(oldValue)))) && !convTo(old(tConfig), chasedT(rvType(chasedP(chasedI(oldValue))))) && isUnp(chasedP(chasedI(oldValue))) ==> selfValid(chasedP(chasedI(oldValue))) && accepts(opts.validators, rvAny(chasedP(chasedI(oldValue))))
 //@ rvwrites rvRootOf(oldValue), pointeeStore()
 //@ requires opts.opts != nil
